@@ -1,4 +1,4 @@
-CONSTANTS Scope = 1  NRuns = 2  Design = "asbuilt"  Bug = "WoReversed"  Emit = FALSE
+CONSTANTS Scope = 1  NRuns = 2  Design = "asbuilt"  Bug = "WoLowHalfOnly"  Emit = FALSE
 CONSTANT Comps <- Only_wo
 CONSTANT DevSet <- AllDevs
 INIT Init
